@@ -1,22 +1,11 @@
 (* C01 corollaries in the property's words, from the refinement theorem (Rc/Cow_proofs.v) and
    frame lemmas of the value semantics (which variables a statement can change). *)
 From Coq Require Import ZArith List Bool Arith Lia.
-From NV Require Import Rc.ValueSem Rc.Heap Rc.Cow Rc.Heap_proofs Rc.Cow_proofs.
+From NV Require Import Rc.ValueSem Rc.Heap Rc.Cow Rc.Heap_proofs Rc.Cow_proofs Rc.For_proofs.
 Import ListNotations.
 Local Open Scope nat_scope.
 
 (* ------------------------------------------------------------------ end states *)
-Lemma final_refines ops : forallb frag ops = true -> forall st sg,
-  StInv st -> Sim st sg -> StInv (final_cow st ops) /\ Sim (final_cow st ops) (final_value sg ops).
-Proof.
-  induction ops as [|s ops IH]; intros FR st sg I Hs; simpl; auto.
-  simpl in FR. apply andb_prop in FR. destruct FR as [F1 F2].
-  unfold final_cow, final_value. simpl.
-  destruct (m_exec st s) as [st1 ok] eqn:E.
-  destruct (m_exec_ok s F1 st sg st1 ok I Hs E) as [sg1 [Ev [I1 Hs1]]].
-  rewrite Ev. simpl. apply IH; auto.
-Qed.
-
 Lemma final_value_app sg a b : final_value sg (a ++ b) = final_value (final_value sg a) b.
 Proof. unfold final_value. apply fold_left_app. Qed.
 Lemma final_cow_app st a b : final_cow st (a ++ b) = final_cow (final_cow st a) b.
@@ -132,14 +121,14 @@ Qed.
    variable - including in-place mutation of cells that y shares - the machine's y stands for the same tree,
    as long as no later statement assigns to y itself *)
 Lemma alias_unaffected_gen n ops1 ops2 y t :
-  forallb frag (ops1 ++ ops2) = true ->
+  forallb ffrag (ops1 ++ ops2) = true ->
   (forall s, In s ops2 -> ~ In y (writes s)) ->
   nth_error (final_value (repeat VNull n) ops1) y = Some t ->
   holds (final_cow (init_state n) (ops1 ++ ops2)) y t.
 Proof.
   intros FR NW Hy.
   destruct (init_ok n) as [I0 S0].
-  destruct (final_refines (ops1 ++ ops2) FR _ _ I0 S0) as [I S].
+  destruct (final_refines_f (ops1 ++ ops2) FR _ _ I0 S0) as [I S].
   eapply Sim_holds; eauto.
   rewrite final_value_app. rewrite final_value_frame; auto.
 Qed.
@@ -219,7 +208,7 @@ Qed.
    moment, whatever the later statements (which may mutate x in place through cells that y shares) do, as long as
    none of them assigns to y itself. *)
 Lemma alias_unaffected n ops1 x y ops2 t :
-  forallb frag (ops1 ++ Simple (SAssign y [] (ERead x [])) :: ops2) = true ->
+  forallb ffrag (ops1 ++ Simple (SAssign y [] (ERead x [])) :: ops2) = true ->
   (forall s, In s ops2 -> ~ In y (writes s)) ->
   y < n ->
   nth_error (final_value (repeat VNull n) ops1) x = Some t ->
@@ -242,7 +231,7 @@ Qed.
    `y = (\a -> (mutate a; a))(x)` - the parameter is mutated inside the call, the machine's x still stands for
    the same tree *)
 Lemma call_leaves_argument n ops x y m t :
-  forallb frag (ops ++ [Simple (SAssign y [] (ECall m (ERead x [])))]) = true ->
+  forallb ffrag (ops ++ [Simple (SAssign y [] (ECall m (ERead x [])))]) = true ->
   x <> y ->
   nth_error (final_value (repeat VNull n) ops) x = Some t ->
   holds (final_cow (init_state n) (ops ++ [Simple (SAssign y [] (ECall m (ERead x [])))])) x t.
@@ -254,7 +243,7 @@ Qed.
 (* a closure shares the variable, not the value it had when the closure was made: the getter `\-> x`
    (captured before) returns the CURRENT content of x *)
 Lemma closure_sees_variable_not_value n ops x y t :
-  forallb frag (ops ++ [Simple (SAssign y [] (EGet x))]) = true ->
+  forallb ffrag (ops ++ [Simple (SAssign y [] (EGet x))]) = true ->
   y < n ->
   nth_error (final_value (repeat VNull n) ops) x = Some t ->
   holds (final_cow (init_state n) (ops ++ [Simple (SAssign y [] (EGet x))])) y t.
